@@ -487,49 +487,57 @@ Proof. repeat match goal with |- _ ∧ _ => split end; vm_compute; reflexivity. 
 
 (** * Restricted compatible units *)
 (** the unrestricted answer: the names listed under the dimensionality of the input *)
-Lemma compat_all_spec r tbl a all :
-  compat_all r tbl a = Ok all →
-  (a = ∅ ∧ all = ∅)
-  ∨ (a ≠ ∅ ∧ ∃ d, dim_of r a = Ok d ∧ ∀ u, u ∈ all ↔ (u, d) ∈ tbl).
+Lemma compat_names_spec r tbl a names :
+  compat_names r tbl a = Ok names →
+  (a = ∅ ∧ names = [])
+  ∨ (a ≠ ∅ ∧ ∃ d, dim_of r a = Ok d ∧ ∀ u, u ∈ names ↔ (u, d) ∈ tbl).
 Proof.
-  unfold compat_all. destruct (bool_decide (a = ∅)) eqn:B.
+  unfold compat_names. destruct (bool_decide (a = ∅)) eqn:B.
   - apply bool_decide_eq_true in B. intros H. injection H as <-. left. auto.
   - apply bool_decide_eq_false in B. destruct (dim_of r a) as [d|e]; [|discriminate]. simpl.
     intros H. injection H as <-. right. split; [exact B|]. exists d. split; [reflexivity|].
-    intros u. rewrite elem_of_list_to_set, elem_of_list_fmap. split.
+    intros u. rewrite elem_of_list_fmap. split.
     + intros ([n d'] & -> & Hin). apply elem_of_list_filter in Hin as [Heq Hin]. simpl in Heq.
       apply Is_true_true, uc_eqb_spec in Heq. simpl. subst d'. exact Hin.
     + intros Hin. exists (u, d). split; [reflexivity|]. apply elem_of_list_filter. split; [|exact Hin].
       simpl. apply Is_true_true, uc_eqb_spec. reflexivity.
 Qed.
+Lemma elem_of_restrict m names u : u ∈ restrict m names ↔ u ∈ m ∧ u ∈ names.
+Proof.
+  unfold restrict. rewrite elem_of_list_to_set, elem_of_list_filter, elem_of_elements.
+  assert (Is_true (existsb (String.eqb u) names) ↔ u ∈ names) as ->; [|tauto].
+  rewrite Is_true_true, existsb_exists. split.
+  - intros (x & Hx & E). apply String.eqb_eq in E. subst x. apply elem_of_list_In. exact Hx.
+  - intros H. exists u. split; [apply elem_of_list_In, H|apply String.eqb_refl].
+Qed.
 
 (** [restricted_compatible_exact], for a group: exactly the same-dimension names among the
     members (the closure) of the group *)
-Theorem compat_group_exact qk r tbl st a n all :
+Theorem compat_group_exact qk r tbl st a n names :
   ginv (ss_groups st) → ss_systems st !! n = None → is_Some (ss_groups st !! n) →
-  compat_all r tbl a = Ok all →
+  compat_names r tbl a = Ok names →
   ∃ v, (get_compatible qk r tbl st a (Some n)).2 = Ok v
-       ∧ ∀ u, u ∈ v ↔ u ∈ all ∧ in_closure (ss_groups st) n u.
+       ∧ ∀ u, u ∈ v ↔ u ∈ names ∧ in_closure (ss_groups st) n u.
 Proof.
   intros I Hs Hg Hall. unfold get_compatible. rewrite Hs, Hall.
   destruct Hg as [g Hg]. rewrite Hg.
   destruct (members_closure (ss_groups st) n I) as (m & Hm & Hsp); [rewrite Hg; eauto|].
   destruct (members (ss_groups st) n) as [gs rr]. simpl in Hm. subst rr. simpl.
-  exists (all ∩ m). split; [reflexivity|]. intros u. rewrite elem_of_intersection, Hsp. reflexivity.
+  exists (restrict m names). split; [reflexivity|]. intros u. rewrite elem_of_restrict, Hsp. tauto.
 Qed.
 (** for a system: the same-dimension names among the system's members; with
     [sys_members_union] these are the members of its groups *)
-Theorem compat_system_exact qk r tbl st a n s all m :
-  ss_systems st !! n = Some s → (sys_members qk st n).2 = Ok m → compat_all r tbl a = Ok all →
-  ∃ v, (get_compatible qk r tbl st a (Some n)).2 = Ok v ∧ ∀ u, u ∈ v ↔ u ∈ all ∧ u ∈ m.
+Theorem compat_system_exact qk r tbl st a n s names m :
+  ss_systems st !! n = Some s → (sys_members qk st n).2 = Ok m → compat_names r tbl a = Ok names →
+  ∃ v, (get_compatible qk r tbl st a (Some n)).2 = Ok v ∧ ∀ u, u ∈ v ↔ u ∈ names ∧ u ∈ m.
 Proof.
   intros Hs Hm Hall. unfold get_compatible. rewrite Hs.
   destruct (sys_members qk st n) as [st' rr]. simpl in Hm. subst rr. simpl. rewrite Hall. simpl.
-  exists (m ∩ all). split; [reflexivity|]. intros u. rewrite elem_of_intersection. tauto.
+  exists (restrict m names). split; [reflexivity|]. intros u. rewrite elem_of_restrict. tauto.
 Qed.
 (** a name that is neither a system nor a group is refused, whatever the input *)
-Theorem compat_unknown qk r tbl st a n all :
-  ss_systems st !! n = None → ss_groups st !! n = None → compat_all r tbl a = Ok all →
+Theorem compat_unknown qk r tbl st a n names :
+  ss_systems st !! n = None → ss_groups st !! n = None → compat_names r tbl a = Ok names →
   (get_compatible qk r tbl st a (Some n)).2 = Err EValue.
 Proof. intros Hs Hg Hall. unfold get_compatible. rewrite Hs, Hall, Hg. reflexivity. Qed.
 
